@@ -487,6 +487,50 @@ func structureMutants(s *chain.Sim, p chain.BlockPlan, rng *rand.Rand) []mutant 
 				return true
 			}, true)
 		}
+		if len(t.SiacoinOutputs) > 0 {
+			// a chain of ephemeral spends, each claiming an inflated value for the output created by the previous
+			// transaction and forming a contract whose tax is about 2^128/27: the taxes alone overflow the siafund pool
+			add("v2:ephemeral-inflated-contract-tax", func(mb *types.Block, _ *consensus.V1BlockSupplement) bool {
+				var addr types.Address
+				found := false
+				for try := 0; try < 8 && !found; try++ {
+					addr = s.NewAddr(true)
+					found = s.Spendable(addr, true)
+				}
+				if !found {
+					return false
+				}
+				k := types.MaxCurrency.Div64(27).Add(types.NewCurrency64(1)) // tax of each contract
+				x := k.Mul64(25)                                             // renter + host
+				v := x.Add(k).Add(types.NewCurrency64(1))                    // claimed parent value: contract + tax + 1 H change
+				prevID := t.SiacoinOutputID(t.ID(), 0)
+				child := s.ChildHeight()
+				for n := 0; n < 30; n++ {
+					fc := types.V2FileContract{
+						ProofHeight: child + 5, ExpirationHeight: child + 10,
+						RenterOutput:    types.SiacoinOutput{Value: x.Div64(2), Address: addr},
+						HostOutput:      types.SiacoinOutput{Value: x.Sub(x.Div64(2)), Address: addr},
+						RenterPublicKey: s.W.Keys[0].PublicKey(), HostPublicKey: s.W.Keys[1].PublicKey(),
+					}
+					s.SignContract(&fc, fc.RenterPublicKey, fc.HostPublicKey)
+					vt := types.V2Transaction{
+						SiacoinInputs: []types.V2SiacoinInput{{Parent: types.SiacoinElement{
+							ID:            prevID,
+							StateElement:  types.StateElement{LeafIndex: types.UnassignedLeafIndex},
+							SiacoinOutput: types.SiacoinOutput{Value: v, Address: addr},
+						}}},
+						SiacoinOutputs: []types.SiacoinOutput{{Value: types.NewCurrency64(1), Address: addr}},
+						FileContracts:  []types.V2FileContract{fc},
+					}
+					if !s.ResignV2(&vt) {
+						return false
+					}
+					mb.V2.Transactions = append(mb.V2.Transactions, vt)
+					prevID = vt.SiacoinOutputID(vt.ID(), 0)
+				}
+				return true
+			}, true)
+		}
 		add("v2:empty-txn", func(mb *types.Block, _ *consensus.V1BlockSupplement) bool {
 			mb.V2.Transactions = append(mb.V2.Transactions, types.V2Transaction{})
 			return true
